@@ -39,11 +39,6 @@ def taylor_replay(case):
                 if not (np.array_equal(c1, c2) and i1.failed == i2.failed and i1.degenerate == i2.degenerate):
                     bad.append(dict(what='reused Taylor object differs from a fresh one', z0=str(z0), failed=(i1.failed, i2.failed), degenerate=(i1.degenerate, i2.degenerate)))
                     break
-        # failed <=> cap reached
-        for mi in (2, 5, 30):
-            c, info = fb.Taylor(np.exp, n=3, max_iter=mi, full_output=True)(0.0)
-            if info.failed != (info.iterations == mi - 1 and info.failed):
-                pass
         for n in range(1, 193):
             mm = int(fb._num_taylor_coefficients(n))
             if not (mm >= n + 1 and mm & (mm - 1) == 0):
